@@ -488,6 +488,13 @@ pub struct Mutations;
 
 impl Prop for Mutations {
     type Case = Case;
+    fn case_time_limit_s(&self) -> u64 {
+        60
+    }
+    fn hang_is_violation(&self) -> bool {
+        // "in bounded time" is the property: a call that never comes back is the violation
+        true
+    }
     fn name(&self) -> &'static str {
         "mutations"
     }
@@ -658,6 +665,18 @@ impl crate::core::Part for FuzzPart {
                 let Ok(data) = std::fs::read(&f) else { continue };
                 rep.evaluations += 1;
                 *rep.classes.entry(format!("seed:{t}")).or_default() += 1;
+                let _watch = {
+                    let (t2, d2) = (t.to_string(), data.clone());
+                    crate::core::watch_case(
+                        ctx.property,
+                        "libfuzzer",
+                        60,
+                        true,
+                        ctx.seed,
+                        ctx.tier,
+                        Box::new(move || serde_json::json!({"target": t2, "bytes": d2})),
+                    )
+                };
                 if std::str::from_utf8(&data).is_ok() {
                     use std::hash::{Hash, Hasher};
                     let mut h = std::collections::hash_map::DefaultHasher::new();
@@ -777,6 +796,9 @@ impl crate::core::Part for FuzzPart {
         rep.assumptions = vec!["libFuzzer campaigns are only approximately reproducible from -seed; the saved input is the reproducible unit".into()];
         rep.wall_s = start.elapsed().as_secs_f64();
         rep
+    }
+    fn replay_limit(&self) -> (u64, bool) {
+        (60, true)
     }
     fn replay(&self, case: &serde_json::Value) -> Result<Obs, String> {
         let target = case["target"].as_str().ok_or("no target")?.to_string();
